@@ -241,7 +241,7 @@ fn run(ctx: &mut Ctx) {
         ("", "cnt", 0, 3),
         ("DECLARE cnt REAL[4]\nX 0", "cnt", 0, 2),   // counter region already declared: overwritten in place
         ("DECLARE a BIT\nDECLARE cnt BIT[2]\nDECLARE z BIT\nX 0", "cnt", 0, 5),
-        ("X 0", "cnt", 1, 2),                           // non-zero index: SUB still uses index 0
+        ("X 0", "cnt", 1, 2),                           // non-zero index (diverged before /repo 0cfdaad)
         ("ADD cnt[0] 1\nX 0", "cnt", 0, 3),             // body touches the counter
         ("HALT", "cnt", 0, 2),
         ("LABEL @loop\nX 0", "cnt", 0, 2),              // body already uses the start label (see target below)
